@@ -182,7 +182,7 @@ Proof.
   unfold do_sched_return, with_sched, get_job. intros H.
   destruct (st_jobs s !! id) as [j|] eqn:Hj; [|done].
   destruct (j_sched j) as [sc|] eqn:Hsc; [|done].
-  destruct (sc_phase sc); try done. destruct (sc_entry sc); try done. destruct (sc_running sc); try done.
+  destruct (sc_phase sc); try done. destruct (sc_entry sc); try done. destruct (sc_running sc); try done. destruct (sc_ending sc); try done.
   exists (bool_decide (sc_lasterr sc = Some ECanceled)).
   unfold r_complete. rewrite abs_lookup, Hj. simpl. rewrite Hsc.
   assert (Hc : ∀ j0, abs_job (complete (st_now s) (sc_lasterr sc) j0)
@@ -251,14 +251,25 @@ Proof.
   unfold stage_end, get_job. destruct (st_jobs s !! id) as [j|] eqn:Hj; [|done].
   destruct (j_sched j) as [sc|] eqn:Hsc; [|done].
   assert (Hl : live s id) by (by exists j, sc).
-  destruct r as [e|].
-  - set (s1 := handle_stage_change _ id n Error).
-    assert (H1 : abs s1 = abs s) by (subst s1; by rewrite abs_handle_stage_change, abs_put_sched).
-    destruct (match find_task j n with Some t => td_allow (jt_def t) | None => false end).
-    + rewrite abs_handle_stage_change, abs_put_sched; [done|by eapply live_abs].
-    + rewrite abs_put_sched; [done|by eapply live_abs].
-  - by rewrite abs_handle_stage_change, abs_put_sched.
+  by rewrite abs_put_sched.
 Qed.
+
+Lemma abs_notify s id n s' : do_notify s id n = Some s' → abs s' = abs s.
+Proof.
+  unfold do_notify, with_sched, get_job. destruct (st_jobs s !! id) as [j|] eqn:Hj; [|done].
+  destruct (j_sched j) as [sc|] eqn:Hsc; [|done].
+  assert (Hl : live s id) by (by exists j, sc).
+  destruct (ending_of sc n) as [[r second]|]; [|done].
+  assert (H1 : abs (handle_stage_change s id n Error) = abs s) by (by rewrite abs_handle_stage_change).
+  assert (Hdone : ∀ sc', abs (handle_stage_change (put_sched s id sc') id n Done) = abs s)
+    by (intros sc'; by rewrite abs_handle_stage_change, abs_put_sched).
+  destruct r as [e|]; [destruct second|].
+  - intros [= <-]. apply Hdone.
+  - destruct (match find_task j n with Some t => td_allow (jt_def t) | None => false end); intros [= <-];
+      (rewrite abs_put_sched; [done|by eapply live_abs]).
+  - intros [= <-]. apply Hdone.
+Qed.
+
 
 Lemma with_sched_live s id f s' : with_sched s id f = Some s' → ∃ j sc, st_jobs s !! id = Some j ∧ j_sched j = Some sc ∧ f j sc = Some s'.
 Proof.
@@ -441,7 +452,7 @@ Theorem refine_step s e s' r :
 Proof.
   intros Hinv Hst. unfold step.
   assert (Hinv' : RInv (abs (clear_req s))) by done.
-  destruct e as [p v u|id|d|id|ds|id|id n|id n|id n o|id|id| | | | | ]; simpl.
+  destruct e as [p v u|id|d|id|ds|id|id n|id n|id n o|id n|id|id| | | | | ]; simpl.
   - intros [= Heq]. right. exists (RvSchedule p (graph_ok (new_job (clear_req s) p (default zero_def (lookup_def (st_defs s) p)) v u))
                        (r_snap (abs_job (new_job (clear_req s) p (default zero_def (lookup_def (st_defs s) p)) v u)))).
     split; [|by split]. simpl. rewrite <- (abs_schedule (clear_req s)). simpl. by rewrite Heq.
@@ -458,6 +469,8 @@ Proof.
     left. split; [|by split]. by rewrite (abs_run_begin _ _ _ _ Hinv' Hf).
   - destruct (do_run_end (clear_req s) id n o) as [s1|] eqn:Hf; simpl; [|done]. intros [= <- <-].
     left. split; [|by split]. by rewrite (abs_run_end _ _ _ _ _ Hinv' Hf).
+  - destruct (do_notify (clear_req s) id n) as [s1|] eqn:Hf; simpl; [|done]. intros [= <- <-].
+    left. split; [|by split]. by rewrite (abs_notify _ _ _ _ Hf).
   - destruct (do_cancel_deliver (clear_req s) id) as [s1|] eqn:Hf; simpl; [|done]. intros [= <- <-].
     left. split; [|by split]. by rewrite (abs_cancel_deliver _ _ _ Hf).
   - destruct (do_sched_return (clear_req s) id) as [s1|] eqn:Hf; simpl; [|done]. intros [= <- <-].
@@ -530,13 +543,20 @@ Qed.
 
 Lemma keeps_stage_end s id n r : keeps s (stage_end s id n r).
 Proof.
-  unfold stage_end. destruct (get_job s id) as [j|]; [|done]. destruct (j_sched j) as [sc|]; [|done].
-  destruct r as [e|].
-  - destruct (match find_task j n with Some t => td_allow (jt_def t) | None => false end).
-    + eapply keeps_trans; [|apply keeps_hsc]. eapply keeps_trans; [|apply keeps_put]. eapply keeps_trans; [|apply keeps_hsc]. done.
-    + eapply keeps_trans; [|apply keeps_put]. eapply keeps_trans; [|apply keeps_hsc]. done.
-  - eapply keeps_trans; [|apply keeps_hsc]. done.
+  unfold stage_end. destruct (get_job s id) as [j|]; [|done]. destruct (j_sched j) as [sc|]; [|done]. done.
 Qed.
+
+Lemma keeps_notify s id n s' : do_notify s id n = Some s' → keeps s s'.
+Proof.
+  unfold do_notify, with_sched. destruct (get_job s id) as [j|]; [|done]. destruct (j_sched j) as [sc|]; [|done].
+  destruct (ending_of sc n) as [[r second]|]; [|done].
+  destruct r as [e|]; [destruct second|].
+  - intros [= <-]. eapply keeps_trans; [|apply keeps_hsc]. done.
+  - destruct (match find_task j n with Some t => td_allow (jt_def t) | None => false end); intros [= <-];
+      (eapply keeps_trans; [|apply keeps_put]; apply keeps_hsc).
+  - intros [= <-]. eapply keeps_trans; [|apply keeps_hsc]. done.
+Qed.
+
 
 Lemma keeps_fold_cancel l s : keeps s (fold_left (fun s id => (cancel_job s id true).1) l s).
 Proof.
@@ -559,7 +579,7 @@ Proof.
   change (st_shut s) with (st_shut (clear_req s)). change (st_shutg s) with (st_shutg (clear_req s)).
   assert (Hk : keeps s (clear_req s)) by done. generalize dependent (clear_req s). intros s0 Hk.
   assert (Hfin : ∀ s1, keeps s0 s1 → keeps s s1) by (intros s1; by apply keeps_trans).
-  destruct e as [p v u|id|d|id|ds|id|id n|id n|id n o|id|id| | | | | ]; simpl.
+  destruct e as [p v u|id|d|id|ds|id|id n|id n|id n o|id n|id|id| | | | | ]; simpl.
   - intros [= Heq]. replace s' with (do_schedule s0 p v u).1 by (by rewrite Heq). apply Hfin.
     unfold do_schedule. destruct (st_shut _); [done|]. destruct (lookup_def _ _) as [d|]; [|done].
     destruct (resolve_action _ _ _); try done; cbn [fst].
@@ -593,10 +613,11 @@ Proof.
       * eapply keeps_trans; [|apply keeps_stage_end]. eapply keeps_trans; [|apply keeps_htc]. done.
     + destruct (sc_ctx sc); [|done]. simpl. intros [= <- _]. apply Hfin.
       eapply keeps_trans; [|apply keeps_stage_end]. eapply keeps_trans; [|apply keeps_htc]. done.
+  - destruct (do_notify s0 id n) as [s1|] eqn:Hn; [|done]. simpl. intros [= <- _]. apply Hfin. by eapply keeps_notify.
   - unfold do_cancel_deliver. destruct (get_job _ id) as [j|]; [|done]. destruct (j_cancels j); [done|].
     destruct (j_sched j); simpl; intros [= <- _]; by apply Hfin.
   - unfold do_sched_return, with_sched. destruct (get_job _ id) as [j|]; [|done]. destruct (j_sched j) as [sc|]; [|done].
-    destruct (sc_phase sc); try done. destruct (sc_entry sc); try done. destruct (sc_running sc); try done.
+    destruct (sc_phase sc); try done. destruct (sc_entry sc); try done. destruct (sc_running sc); try done. destruct (sc_ending sc); try done.
     destruct (j_removed j); simpl; intros [= <- _]; apply Hfin; [done|].
     eapply keeps_trans; [|apply keeps_req]. eapply keeps_trans; [|apply keeps_dequeue_loop]. done.
   - by intros [= <- _].
